@@ -560,6 +560,44 @@ def check_linearize_inadmissible(ctx, kind):
 # ------------------------------------------------------------------------------------------------
 
 
+def check_ts1_taylor_point(ctx):
+    """`constraint_ode_ts1(ode, taylor_point=tp)` must be identical to `constraint_residual(residual_from_ode(ode), taylor_point=tp)`
+    (C11: "the first-order-linearised ODE constraint is identical to the residual constraint"), also for a non-default
+    linearisation point (dense model; maximum-a-posteriori Taylor point; nonlinear field; mean that violates the ODE)."""
+    import jax.numpy as jnp
+    from probdiffeq import probdiffeq as pdq
+    from probdiffeq._probdiffeq import problems
+
+    rng = ctx.rng
+    d = int(rng.choice([1, 2]))
+    a, b_ = float(rng.choice([0.5, 1.0, -0.75])), float(rng.choice([0.25, 1.0]))
+    vf = pdq.ode(lambda u, /, *, t: a * u * u + b_ * t + 0.125 * jnp.flip(u), jacobian=pdq.jacobian_materialize())
+    ssm = pdq.state_space_model_dense()
+    tp = pdq.taylor_point_maximum_a_posteriori()
+    c1 = ssm.constraint_ode_ts1(vf, taylor_point=tp)
+    c2 = ssm.constraint_residual(problems.residual_from_ode(vf), taylor_point=tp)
+    c0 = ssm.constraint_ode_ts1(vf)
+    n = 3
+    mean = [jnp.asarray(exprs.small_rationals(rng, (d,)), dtype=float) for _ in range(n)]
+    std = [jnp.asarray(np.abs(exprs.small_rationals(rng, (d,))) + 0.25, dtype=float) for _ in range(n)]
+    from probdiffeq._probdiffeq import ssm_impl_dense as D
+
+    rv = D.DenseNormal.from_mean_and_std(mean, std)
+    t = jnp.asarray(float(exprs.small_rationals(rng, (), scale=1)))
+    case = {"check": "ts1-with-taylor-point", "d": d, "a": a, "b": b_, "mean": [np.asarray(m).tolist() for m in mean], "std": [np.asarray(x).tolist() for x in std], "t": float(t)}
+    out = []
+    for c in (c1, c2, c0):
+        cond, _ = c.linearize(rv, c.init_linearization(), damp=0.0, t=t)
+        out.append((np.asarray(cond.A), np.asarray(cond.noise.mean_flat)))
+    dA = float(np.max(np.abs(out[0][0] - out[1][0])))
+    db = float(np.max(np.abs(out[0][1] - out[1][1])))
+    ctx.dev("ts1(taylor_point) vs residual(taylor_point)", max(dA, db), 1e-11, case=case, sig="dense:ts1:taylor_point-ignored",
+            what=f"constraint_ode_ts1(ode, taylor_point=MAP) differs from constraint_residual(residual_from_ode(ode), taylor_point=MAP): dA={dA:.2e}, db={db:.2e}")
+    nontrivial = float(np.max(np.abs(out[0][0] - out[2][0]))) > 1e-6
+    ctx.count(f"ts1-taylor-point nontrivial={nontrivial}")
+    ctx.case(case, nontrivial=nontrivial)
+
+
 def corpus(ctx):
     """fixed cases: the worked example of Props/C11.lean (values asserted there by `decide +kernel`)"""
     es = [add(mul(V(0, 0), V(1, 1)), T), add(mul(V(0, 1), V(0, 1)), neg(mul(V(1, 0), T)))]
@@ -619,6 +657,9 @@ def run(ctx):
     for i in range(ctx.n(3, 20)):
         K = int(rng.choice([1, 2]))
         check_lift_max(ctx, K, 2, exprs.gen_field(rng, K, 2, time_dep=True, max_deg=2), K + 1 + int(rng.integers(0, 4)))
+
+    for i in range(ctx.n(3, 30)):
+        check_ts1_taylor_point(ctx)
 
     # constructors
     for i in range(ctx.n(10, 200)):
